@@ -85,6 +85,11 @@ def judge_c07(ctx, L, t, cc, enc, data, how=""):
     if first is None:
         if w.outcome["kind"] == "ok":
             ctx.problem(f"C07:silent-warn:{so['kind']}", f"strict mode raises {so['kind']} but warn mode emits no warning; {describe(t, cc, enc, data)}", pl)
+        elif allowed_abort(L, t, w) and _same_details(so, w.outcome) is None and w.events == s.events:
+            # C08's documented exception (unknown command code / selector without member): warn mode cannot go on and
+            # raises - the same error after the same events as strict mode; there is no first warning to compare
+            ctx.count("warn-aborts-like-strict(C08 exception)")
+            return True
         else:
             ctx.problem(f"C07:warn-fails-before-warning:{w.outcome['kind']}", f"strict mode raises {so['kind']}; warn mode ends with {w.outcome} before any warning; {describe(t, cc, enc, data)}", pl)
         return False
